@@ -5,6 +5,54 @@ VERIF = os.path.dirname(os.path.dirname(os.path.abspath(__file__)))
 ASSUME = ('Instances of each function pattern in the probe catalogue (and, thorough tier, the repository tests/examples) stand for all '
           'instantiations; LP64 little-endian host; clang 14 front end; library models in DESIGN §7.')
 CLAIMS = {
+ 'C01': dict(technique='per-kind symbolic path comparison of every writer and reader with the documented layout; interval analysis of the integer layer; role specification of I/O primitives',
+             text='Decides the structural conditions of round-tripping, not run-time value equality: for every encoder kind the writer and the reader are '
+                  'each compared (all symbolic paths) with the documented layout, hence agree on integer types of length fields, byte-vs-element '
+                  'quantities, element order and count; the integer layer (class selection, payload types, fixint decode) is decided for all values; '
+                  'no length is narrowed; reader/writer primitives move exactly the requested bytes; table frames are exactly consumed.',
+             ref='§4 C01'),
+ 'C02': dict(technique='guard/dominance rules on symbolic paths of reader primitives and decoders; Ensure-before-allocation; narrowing scan; loop termination rule',
+             text='Necessary conditions for memory safety and bounded allocation: bounded-reader primitives guard every transfer (overflow-safe); a decoded '
+                  'length reaches resize() only after a successful Ensure of that many bytes and is followed by a raw read of exactly that size; fixed '
+                  'storage is written only under the exact-length/capacity guard evaluated on the full 64-bit length; decoder loops are input-consuming '
+                  'or constant-bounded. Freedom from undefined behaviour in general is not decided. BufferReader is the recorded finding F-A.',
+             ref='§4 C02'),
+ 'C03': dict(technique='interval analysis of Prefix over all values; symbolic path comparison of every WritePayload with the documented layout; doc-table parse',
+             text='Integer layer complete: minimal class for every value of the nine integer encoders, payload type per class, prefix byte values equal the '
+                  'table parsed from docs/format.md. Container layer: every WritePayload kind emits the documented length type and quantity and its '
+                  'elements in order. Float payload bytes and host endianness are assumed (native copy on a little-endian host).',
+             ref='§4 C03'),
+ 'C04': dict(technique='exhaustive evaluation of Match over 256 prefixes; guard-to-error rules on symbolic paths of every ReadPayload',
+             text='Integer layer complete: accepted prefix set per destination width/signedness, payload type per class, fixint decode. Container layer: each '
+                  'documented validation (exact fixed lengths, byte-length multiples, member counts, logical-buffer capacity, variant index range, handle '
+                  'type) is present with its documented error category and dominates every element read; no narrowing hides part of a length from the guard.',
+             ref='§4 C04'),
+ 'C05': dict(technique='role specification of every reader primitive (symbolic effect summaries) + status discipline + skip/padding rules',
+             text='Compositional: every reader primitive of the five library readers fails when asked for more than remains (stream/fd behaviour modelled), '
+                  'decoders demand bytes only through those primitives including skipped table entries and padding, and the status discipline carries the '
+                  'failure to the caller. BufferReader is the recorded finding F-A.',
+             ref='§4 C05'),
+ 'C06': dict(technique='term-by-term comparison of every Size() with the symbolic summary of its WritePayload; Prepare-first rule; writer guard rules',
+             text='Size() of each encoder kind counts the prefix once, sizes the length field for the writer\'s own length expression, and counts the same '
+                  'payload (raw bytes or the same element/member list) in size_t arithmetic; Handle over-estimates with I64; the serializer Prepares '
+                  'Size(value) before writing; checked writers and the bounded writer refuse exactly what exceeds their capacity; a table entry\'s '
+                  'declared size, frame limit and Size(value) are one quantity.',
+             ref='§4 C06'),
+ 'C07': dict(technique='symbolic summaries of all Encoding<Table> members per probe table with Index<N> recursion flattened; compile-fail witnesses',
+             text='The reader\'s behaviour depends only on the id->entry map of the reading definition; the rules cover every declared id: cleared first, '
+                  'dispatched to the entry declared with that id, skipped by exactly its size when unknown or deleted, framed and padded when read; the '
+                  'writer omits empty/deleted entries and counts exactly the written ones. Per-entry value preservation reduces to C01/C09.',
+             ref='§4 C07'),
+ 'C08': dict(technique='guard-to-error and framing rules on symbolic paths of the table decoder; status discipline; bounded-reader step rules',
+             text='Hash validated before entries (InvalidTableHash), duplicate detection on an entry list that is cleared first (DuplicateTableEntry), value '
+                  'decoded inside a frame of exactly the declared size with the padding status returned, id dispatch independent of order, inner errors '
+                  'propagate (status discipline).',
+             ref='§4 C08'),
+ 'C11': dict(technique='reset/overwrite/coverage rule on the successful symbolic paths of every ReadPayload',
+             text='Every destination kind is reset or completely overwritten on every successful path (including empty-input paths): clear(), resize plus raw '
+                  'read of exactly the resized range, full element coverage of fixed-size destinations, re-seating of Optional/Result/Variant, ClearEntries '
+                  'of all declared table entries, size member of logical buffers. Equality with the fresh-object result as values is not decided.',
+             ref='§4 C11'),
  'C10': dict(technique='abstract interpretation of status locals (Untested/Ok/Failed) over every function instance; rules SD1-SD4',
              text='Every status-producing call site under include/nop (about 240 file:line:col sites) is a fault position; the interpreter proves per pattern '
                   'that the status is consumed, tested before the next I/O step, that the operation stops on failure and that the failure is returned '
